@@ -110,19 +110,6 @@ func (d *duplexHTTPCall) Write(data []byte) (int, error) {
 		d.SetError(err)
 		return 0, wrapIfContextError(err)
 	}
-	select {
-	case <-d.responseReady:
-		if d.response != nil && d.response.ProtoMajor < 2 {
-			// HTTP/1.x is request-then-response: a server that has answered is done
-			// with the request. net/http's transport doesn't say so (it keeps
-			// uploading), and its server closes the connection if the upload goes
-			// on for long - which costs us whatever part of the answer we haven't
-			// read yet. Tell the caller that the stream is over, as the HTTP/2
-			// transport does by closing the request body.
-			return 0, io.EOF
-		}
-	default:
-	}
 	// It's safe to write to this side of the pipe while net/http concurrently
 	// reads from the other side.
 	verifYield(d.ctx, "write.pipe")
@@ -360,6 +347,19 @@ func (d *duplexHTTPCall) makeRequest() {
 		return
 	}
 	d.response = response
+	if response.ProtoMajor < 2 && response.Close {
+		// An HTTP/1.x server that answers while we're still sending, and
+		// announces that it will close the connection, has given up on the rest
+		// of the request (net/http's server does this once more than 256 KiB of
+		// it remain unread). net/http's transport keeps uploading all the same,
+		// until the server closes the connection - and the transport's failed
+		// write then costs us whatever part of the answer we haven't read yet.
+		// End the request body here: Sends, including one that is blocked right
+		// now, report the end of the stream, as they do on HTTP/2 where the
+		// transport closes the request body, and callers move on to Receive.
+		atomic.StoreUint32(&d.requestBodyDone, 1)
+		_ = d.requestBodyWriter.Close()
+	}
 	if err := d.validateResponse(response); err != nil {
 		d.SetError(err)
 		return
